@@ -104,6 +104,7 @@ func runC13(r *vf.Run) {
 		}
 	}
 	c13OddNames(r)
+	c13Shutdown(r)
 	c13Conversions(r)
 	c13UTF8Finding(r)
 	r.Floor("every server option set used", r.Covered("server_option_sets") == len(serverOptionSets))
